@@ -442,7 +442,12 @@ fn eval_code_in_namespace(
     #[cfg(wilfred_garden_verif)]
     crate::verif::point("eval.begin", "");
     let eval_start = Instant::now();
-    let eval_result = eval_toplevel_exprs_then_stop(&items, env, session, Rc::clone(&namespace));
+    // Catch a crash in the interpreter so the flusher is still stopped
+    // and the output printed so far is still delivered. The panic
+    // continues below, and `session_worker` reports it to the client.
+    let eval_result = std::panic::catch_unwind(std::panic::AssertUnwindSafe(|| {
+        eval_toplevel_exprs_then_stop(&items, env, session, Rc::clone(&namespace))
+    }));
     let eval_msec = eval_start.elapsed().as_millis() as i64;
     #[cfg(wilfred_garden_verif)]
     crate::verif::point("eval.end", "");
@@ -454,6 +459,11 @@ fn eval_code_in_namespace(
     crate::verif::point("final_drain", "");
     flush_output_buffer(stdout_buf, b"out", response_tx, base_msg);
     flush_output_buffer(stderr_buf, b"err", response_tx, base_msg);
+
+    let eval_result = match eval_result {
+        Ok(r) => r,
+        Err(payload) => std::panic::resume_unwind(payload),
+    };
 
     match eval_result {
         Ok(value) => {
@@ -863,6 +873,50 @@ fn verif_request_id(req: &SessionRequest) -> String {
         .to_owned()
 }
 
+impl SessionRequest {
+    fn base_msg(&self) -> &HashMap<Vec<u8>, Value> {
+        match self {
+            SessionRequest::Eval { base_msg, .. }
+            | SessionRequest::LoadFile { base_msg, .. }
+            | SessionRequest::Completions { base_msg, .. }
+            | SessionRequest::Lookup { base_msg, .. } => base_msg,
+        }
+    }
+}
+
+/// Build the responses for a request whose handling panicked, i.e.
+/// hit a bug in Garden itself. The request still gets its terminal
+/// `done` message, so clients don't wait forever.
+fn crashed_responses(
+    payload: &(dyn std::any::Any + Send),
+    base_msg: &HashMap<Vec<u8>, Value>,
+) -> Vec<Value> {
+    let reason = if let Some(s) = payload.downcast_ref::<&str>() {
+        (*s).to_owned()
+    } else if let Some(s) = payload.downcast_ref::<String>() {
+        s.clone()
+    } else {
+        "unknown panic".to_owned()
+    };
+    let err_text = format!("Garden crashed whilst handling this request (this is a bug): {reason}");
+
+    let mut err_msg = base_msg.clone();
+    err_msg.insert(b"err".to_vec(), bstr(format!("{err_text}\n")));
+
+    let mut done_msg = base_msg.clone();
+    done_msg.insert(b"ex".to_vec(), bstr(err_text));
+    done_msg.insert(
+        b"status".to_vec(),
+        Value::List(vec![
+            bstr("done"),
+            bstr("eval-error"),
+            bstr("internal-error"),
+        ]),
+    );
+
+    vec![Value::Dict(err_msg), Value::Dict(done_msg)]
+}
+
 /// Worker thread that owns the `Env` for a session and handles each
 /// session-bound op sequentially.
 fn session_worker(
@@ -896,7 +950,13 @@ fn session_worker(
             pretty_print_json: false,
         };
 
-        let responses = match req {
+        let crash_base_msg = req.base_msg().clone();
+
+        // If handling the request panics, report that on the request
+        // and keep the session alive. Letting the worker die would
+        // leave this request, and everything queued behind it,
+        // without a `done` message.
+        let responses = std::panic::catch_unwind(std::panic::AssertUnwindSafe(|| match req {
             SessionRequest::Eval {
                 code,
                 base_msg,
@@ -932,6 +992,15 @@ fn session_worker(
             }
             SessionRequest::Lookup { sym, base_msg } => {
                 handle_lookup(&env, &sym, &base_msg, temp_built_in_files.as_ref().as_ref())
+            }
+        }));
+        let responses = match responses {
+            Ok(responses) => responses,
+            Err(payload) => {
+                // Discard the half-finished evaluation.
+                env.stack.pop_to_toplevel();
+                env.stop_at_expr_id = None;
+                crashed_responses(payload.as_ref(), &crash_base_msg)
             }
         };
         for r in responses {
@@ -1744,10 +1813,18 @@ mod tests {
     /// Read all messages with a matching `id` field from the response
     /// channel, until a `status` containing `done` is seen.
     fn collect_until_done(rx: &Receiver<Value>, id: &str) -> Vec<HashMap<Vec<u8>, Value>> {
+        collect_until_done_within(rx, id, Duration::from_secs(5))
+    }
+
+    fn collect_until_done_within(
+        rx: &Receiver<Value>,
+        id: &str,
+        timeout: Duration,
+    ) -> Vec<HashMap<Vec<u8>, Value>> {
         let mut out = Vec::new();
         loop {
             let v = rx
-                .recv_timeout(Duration::from_secs(5))
+                .recv_timeout(timeout)
                 .expect("timeout waiting for response");
             let Value::Dict(d) = v else {
                 continue;
@@ -1824,6 +1901,55 @@ mod tests {
         assert!(
             !status.iter().any(|s| s == "eval-error"),
             "interrupt should not be reported as eval-error: {status:?}"
+        );
+    }
+
+    #[test]
+    fn session_survives_interpreter_crash() {
+        // A request that crashes Garden itself must still be
+        // answered, and must not take the session down with it.
+        let (tx, rx) = mpsc::channel();
+        let mut conn = Connection::new(tx);
+
+        let clone_req: HashMap<Vec<u8>, Value> = HashMap::from([
+            (b"op".to_vec(), bstr("clone")),
+            (b"id".to_vec(), bstr("c1")),
+        ]);
+        handle_message(&mut conn, &clone_req);
+        let clone_resp = collect_until_done(&rx, "c1");
+        let new_session = clone_resp
+            .iter()
+            .find_map(|d| dict_get(d, "new-session").and_then(as_str))
+            .expect("clone produced a new-session id")
+            .to_owned();
+
+        let crash_req: HashMap<Vec<u8>, Value> = HashMap::from([
+            (b"op".to_vec(), bstr("eval")),
+            (b"id".to_vec(), bstr("e1")),
+            (b"session".to_vec(), bstr(new_session.clone())),
+            (b"code".to_vec(), bstr("let\u{a0}x = 1")),
+        ]);
+        handle_message(&mut conn, &crash_req);
+        // Printing the backtrace of the crash can be slow.
+        let crash_resp = collect_until_done_within(&rx, "e1", Duration::from_secs(60));
+        assert!(
+            crash_resp.last().is_some(),
+            "the crashing request should still be answered"
+        );
+
+        let eval_req: HashMap<Vec<u8>, Value> = HashMap::from([
+            (b"op".to_vec(), bstr("eval")),
+            (b"id".to_vec(), bstr("e2")),
+            (b"session".to_vec(), bstr(new_session)),
+            (b"code".to_vec(), bstr("1 + 2")),
+        ]);
+        handle_message(&mut conn, &eval_req);
+        let eval_resp = collect_until_done(&rx, "e2");
+        assert!(
+            eval_resp
+                .iter()
+                .any(|d| dict_get(d, "value").and_then(as_str) == Some("3")),
+            "the session should still evaluate code after a crash"
         );
     }
 
